@@ -275,6 +275,26 @@ Definition io_setitem (c : cfg) k s hp g (i : Z) v :=
     else if c SIOSetItem then R s ValueError                       (* FIXED *)
     else R (io_disown k s g old) ValueError                         (* CURRENT: old element disowned, still listed *)
   end.
+(* lst[a:b] = vs  and  del lst[a:b]  for plain slices with non-negative bounds (Python clamps them to the length).
+   Since c5c2382: every new item is validated, then the old items are released, the new ones acquired, the list spliced. *)
+Definition slice_lo (len a : nat) : nat := Nat.min a len.
+Definition slice_hi (len a b : nat) : nat := Nat.max (slice_lo len a) (Nat.min b len).
+Definition io_setslice (c : cfg) k s hp g (a b : nat) (vs : list vid) :=
+  let l := iol k s g in
+  let lo := slice_lo (length l) a in
+  let hi := slice_hi (length l) a b in
+  let old := firstn (hi - lo) (skipn lo l) in
+  if forallb (io_check k s hp g) vs then
+    K (set_iol k (io_own_all k (io_disown_all k s g old) g vs) g (firstn lo l ++ vs ++ skipn hi l))
+  else if c SIOSetItem then R s ValueError                         (* FIXED *)
+  else R (fst (io_own_seq k (io_disown_all k s g old) hp g vs)) ValueError.   (* before the fix: old items released first *)
+Definition io_delslice (c : cfg) k s g (a b : nat) :=
+  let l := iol k s g in
+  let lo := slice_lo (length l) a in
+  let hi := slice_hi (length l) a b in
+  let old := firstn (hi - lo) (skipn lo l) in
+  if c SIODelItem then K (set_iol k (io_disown_all k s g old) g (firstn lo l ++ skipn hi l))   (* FIXED: tracked *)
+  else K (set_iol k s g (firstn lo l ++ skipn hi l)).                                          (* before: untracked *)
 Definition io_delitem (c : cfg) k s g (i : Z) :=
   if c SIODelItem then io_pop k s g i                               (* FIXED: tracked like pop *)
   else let l := iol k s g in                                        (* CURRENT: UserList.__delitem__ *)
@@ -616,6 +636,8 @@ Inductive op :=
 | IOClear (k : kind) (g : gid)
 | IOSetItem (k : kind) (g : gid) (i : Z) (v : vid)
 | IODelItem (k : kind) (g : gid) (i : Z)
+| IOSetSlice (k : kind) (g : gid) (a b : nat) (vs : list vid)
+| IODelSlice (k : kind) (g : gid) (a b : nat)
 | IOIMul (k : kind) (g : gid) (m : Z)
 | IOReverse (k : kind) (g : gid)
 | InitSetItem (g : gid) (key : name) (v : vid)
@@ -649,6 +671,8 @@ Definition step (c : cfg) (h : heap) (o : op) : heap * res unit :=
   | IOClear k g => lift_ow h (io_clear k (how h) g)
   | IOSetItem k g i v => lift_ow h (io_setitem c k (how h) (hp h) g i v)
   | IODelItem k g i => lift_ow h (io_delitem c k (how h) g i)
+  | IOSetSlice k g a b vs => lift_ow h (io_setslice c k (how h) (hp h) g a b vs)
+  | IODelSlice k g a b => lift_ow h (io_delslice c k (how h) g a b)
   | IOIMul k g m => lift_ow h (io_imul c k (how h) g m)
   | IOReverse k g => lift_ow h (io_reverse k (how h) g)
   | InitSetItem g key v => lift_ow h (init_setitem c (how h) (hp h) g key v)
